@@ -99,6 +99,11 @@ var descHolders = []descHolder{
 	{"var o=Object.prototype;", "toString", true},
 	{"var o=Array.prototype;", "length", true},
 	{"var o=Object.freeze({x:1});", "x", false},
+	{"var o={};Object.defineProperty(o,'x',{get:undefined,set:undefined,configurable:true});", "x", false},
+	{"var o={};Object.defineProperty(o,'x',{get:undefined,configurable:true,enumerable:true});", "x", false},
+	{"var o={};Object.defineProperty(o,'x',{set:undefined});", "x", false},
+	{"var o={x:1};Object.defineProperty(o,'x',{get:undefined,set:undefined});", "x", false},
+	{"var o=[1,2];Object.defineProperty(o,'0',{get:undefined,set:undefined});", "0", false},
 	{"var o=hgo('go_slice');", "0", false},
 	{"var o=hgo('go_slice');", "length", false},
 	{"var o=hgo('go_slice');", "7", false},
